@@ -178,6 +178,7 @@ def explore(task, src_root, contracts, loop_hooks=None, max_paths=400, timeout_m
     results, undecided = [], []
     forks = {}
     npaths = 0
+    used = set()
     t0 = time.time()
     while work:
         decisions = work.pop()
@@ -200,6 +201,7 @@ def explore(task, src_root, contracts, loop_hooks=None, max_paths=400, timeout_m
         except RecursionError as e:
             undecided.append(dict(task=task.name, reason="recursion limit", trace=list(ctx.trace)))
         work.extend(ctx.alts)
+        used.update(q for q in interp.call_log if q not in interp.inline_only)
         for fid, arm, outc in ctx.fork_outcomes:
             forks.setdefault(fid, {}).setdefault(arm, set()).add(outc)
         for ob in ctx.obligs:
@@ -211,7 +213,7 @@ def explore(task, src_root, contracts, loop_hooks=None, max_paths=400, timeout_m
         if len(arms) == 2 and all("normal" in o for o in arms.values()):
             undecided.append(dict(task=task.name, reason="OutOfReach: a summarised loop branches on an iteration-dependent test and both arms continue (the FOLD rule does not apply)", trace=[]))
             break
-    return results, undecided, dict(paths=npaths, wall=round(time.time() - t0, 3))
+    return results, undecided, dict(paths=npaths, wall=round(time.time() - t0, 3), contracts_used=sorted(used))
 
 
 def source_hash(src_root, qualname):
